@@ -1,15 +1,15 @@
 SPECIFICATION Spec
 CONSTANTS
-  Actors = {"p", "c", "g"}
+  Actors = {"p", "c", "g", "q"}
   NoA = "none"
-  InitSup <- SupPC
-  InitSt <- StRun
+  InitSup <- SupSpawn
+  InitSt <- StStartC
   InitMayExit = {"p", "c"}
-  LinkOps <- Link3
-  UnlinkOps <- Unlink3
-  KillOps = {"p", "c"}
-  DrainOps = {"c", "g"}
-  MaxEnv = 2
+  LinkOps <- LinkSpawn
+  UnlinkOps <- UnlinkSpawn
+  KillOps = {"p"}
+  DrainOps = {"p"}
+  MaxEnv = 3
   AllowDev = FALSE
 INVARIANTS
   TypeOK TwoSided StoppedIsolated SubtreeSignalled RacingLink SubtreeDies NoDeviation
